@@ -268,11 +268,17 @@ pub struct InstCfg {
     pub big_functions: bool,
 }
 
+/// one case in eight, spread evenly over the worker shards (shard = k mod 16)
+pub fn is_deep_case(k: u64) -> bool {
+    (k / 16) % 8 == 5
+}
+
 impl InstCfg {
     /// thorough tier: one case in eight explores a much larger instance (many variables, constraints
     /// and terms), so that defects with a size threshold have a chance to show
     pub fn deepen(&mut self, thorough: bool, k: u64) {
-        if thorough && k % 8 == 5 {
+        // (k / 16) so that the deep cases spread over all 16 worker shards (shard = k mod 16)
+        if thorough && is_deep_case(k) {
             self.max_vars = 24;
             self.max_constraints = 20;
             self.max_removed = 10;
